@@ -62,10 +62,23 @@ def W(w, c): return [15, w, c]            # transparent wrapper (Either / Either
 def SQ(k, *cs): return [16, k] + list(cs) # [T;N] / StaticVec / Fragment: children, no end marker
 def TR_(rep, s): return [26, rep, s]      # text node in another representation (&str, Cow, Arc<str>, Oco, numbers)
 def EN(t, *cs): return [27, t] + list(cs) # element built by chained .child() calls
+def CL(c): return [17, c]                  # move || c   (ReactiveFunction: built again for every call)
+def UN(c): return [18, c]                  # leptos Unsuspend::new(move || c)
+def RV(f, s): return [19, f, s]            # leptos_server Resource<String> used as a view
+def AW(f, bl, c): return [20, f, bl, c]    # leptos <Await future blocking>
+def RE(tag, idl, c): return [21, tag, idl, c]   # element with id attribute / raw-text content (RTAGS)
+def VO(k): return [22, k]                  # void element (VOIDS)
+def IH(s): return [23, s]                  # div().inner_html(raw)
+def WA(c): return [24, c]                  # c.add_any_attr(data-k="v")  (AnyViewWithAttrs)
+def SA(f, c): return [25, f, c]            # Suspend::new(async { f.await; span().child(c) }).add_any_attr(data-j="v")
+RTAGS = ["div", "textarea", "style", "span"]
+RAW_TAGS = (1, 2)                          # children rendered with escape = false
+VOIDS = ["br", "input", "hr"]
 NEVER = -1                                # "future" of a LocalResource: never completes on the server
 def Cm(f): return [0, f]
 P = [1]
-LEPTOS_KINDS = {10, 11, 12, 13, 14}
+LEPTOS_KINDS = {10, 11, 12, 13, 14, 17, 18, 19, 20}   # spawn tasks / need an executor: oracle only
+UNMODELLED = LEPTOS_KINDS | {21, 22, 23, 24, 25}      # tachys views outside the Coq grammar: oracle only
 TICK, CREATE, RENDER = [2], [3], [4]      # extra schedule events of opcode 1 (executor turns under control)
 TAGS = ["div", "p", "span", "b"]
 WRAPS = ["Either::Left", "Either::Right", "EitherOf3::B", "Ok", "OwnedView::new", "into_view", "EitherOf4::D", "[_; 1]"]
@@ -75,10 +88,14 @@ TUPLE_ARITIES = (0, 1, 2, 3, 4, 5, 6, 7, 8, 12, 16, 25, 26)
 
 def futures_of(v):
     k = v[0]
-    if k in (0, 6, 26):
+    if k in (0, 6, 26, 22, 23):
         return []
-    if k in (8, 9, 15, 16, 27):
+    if k in (8, 9, 15, 16, 27, 17, 18, 21, 24):
         return [f for c in children(v) for f in futures_of(c)]
+    if k == 19:
+        return [v[1]]
+    if k in (20, 25):
+        return [v[1]] + futures_of(children(v)[0])
     if k == 1:
         return futures_of(v[2])
     if k == 5:
@@ -108,8 +125,14 @@ def kinds_in(v, acc=None):
 
 def children(v):
     k = v[0]
-    if k in (0, 6, 26):
+    if k in (0, 6, 26, 19, 22, 23):
         return []
+    if k in (17, 18, 24):
+        return [v[1]]
+    if k in (20, 21):
+        return [v[3]]
+    if k == 25:
+        return [v[2]]
     if k in (8, 9):
         return v[1:]
     if k == 15:
@@ -133,6 +156,40 @@ def children(v):
     if k in (11, 12):
         return [v[1], v[2]]
     raise ValueError(v)
+
+
+def norm_tree(v, in_susp=False):
+    """the view as the oracle reads it: a Resource used as a view is a Suspend around its text,
+    <Await> is <Suspense fallback=()> around a Suspend, the typed Suspend with an attribute is a
+    Suspend around a span carrying it, and a Suspend that reads a LocalResource outside any
+    <Suspense> gives up: it resolves to None, which renders like ()"""
+    k = v[0]
+    if k == 19:
+        return [3, v[1], [0, v[2]]]
+    if k == 20:
+        return [11, [2], [3, v[1], norm_tree(v[3], True)]]
+    if k == 25:
+        return [3, v[1], [24, [1, 2, norm_tree(v[2], False)], "data-j"]]
+    if k == 14 and not in_susp:
+        return [3, v[1], [2] if (v[2] or v[3]) else norm_tree(v[4], False)]
+    if k in (0, 6, 26, 22, 23):
+        return v
+    if k in (11, 12):
+        return [k, norm_tree(v[1], False), norm_tree(v[2], True)] + v[3:]
+    if k in (3, 7):
+        return [k, v[1], norm_tree(v[2], False)]
+    kids = children(v)
+    n = len(kids)
+    head = v[:len(v) - n] if k != 4 else None
+    if k == 4:
+        return [4, v[1], norm_tree(v[2], in_susp), norm_tree(v[3], in_susp), v[4]]
+    if k in (20, 21):
+        return v[:3] + [norm_tree(v[3], in_susp)]
+    if k == 14:
+        return v[:4] + [norm_tree(v[4], in_susp)]
+    if k == 24:
+        return [24, norm_tree(v[1], in_susp)] + v[2:]
+    return head + [norm_tree(c, in_susp) for c in kids]
 
 
 def raw_async_under_ooo(v, inside=False):
@@ -170,7 +227,30 @@ def show_view(v):
         return "<ErrorBoundary>%s</ErrorBoundary>" % show_view(v[1])
     if k in (11, 12):
         n = "Suspense" if k == 11 else "Transition"
+        if len(v) > 3 and v[3]:
+            if k == 11:
+                return "<Suspense>%s</Suspense>" % show_view(v[2])
+            return "<Transition fallback=%s set_pending>%s</Transition>" % (show_view(v[1]), show_view(v[2]))
         return "<%s fallback=%s>%s</%s>" % (n, show_view(v[1]), show_view(v[2]), n)
+    if k == 17:
+        return "{move || %s}" % show_view(v[1])
+    if k == 18:
+        return "Unsuspend(%s)" % show_view(v[1])
+    if k == 19:
+        return "Resource(f%d -> %r)" % (v[1], s(v[2]))
+    if k == 20:
+        return "<Await future=f%d%s>%s</Await>" % (v[1], " blocking" if v[2] else "", show_view(v[3]))
+    if k == 21:
+        t = RTAGS[v[1] % 4]
+        return "<%s%s>%s</%s>" % (t, ' id="%s"' % s(v[2]) if v[2] else "", show_view(v[3]), t)
+    if k == 22:
+        return "<%s>" % VOIDS[v[1] % 3]
+    if k == 23:
+        return "<div inner_html=%r/>" % s(v[1])
+    if k == 24:
+        return "%s.add_any_attr(data-k)" % show_view(v[1])
+    if k == 25:
+        return "Suspend(f%d -> <span>%s</span>).add_any_attr(data-j)" % (v[1], show_view(v[2]))
     if k == 13:
         return "{move || res%d.get().map(|_| %s)}" % (v[1], show_view(v[2]))
     if k == 14:
@@ -215,12 +295,52 @@ class Lab:
         return ("-" if signed and self.rng.random() < 0.4 else "") + "%d" % (7000 + self.n)
 
 
-def gen_view(rng, lab, fut, depth, allow, in_fallback=False, in_susp=False):
-    """allow: set of node kinds; fut: [next free future id, limit]"""
+# containers / wrappers / text representations of tachys (modelled by desugaring, see StreamRun.view_of)
+CONT = {8, 9, 15, 16, 26, 27}
+FBOK = CONT | {21, 22, 23, 24}      # besides text / elements / tuples: what a fallback may contain
+
+
+def gen_raw(rng, lab, fut, depth, allow, in_fallback):
+    """content of a <textarea>/<style>: text, tuples, Vec, Option, wrappers, Suspend"""
+    opts = [0, 0, 0, 2] if depth <= 0 else [0, 0, 2, 2, 8, 9, 15, 16]
+    if fut[0] < fut[1] and 3 in allow:
+        opts += [3, 3, 3]
+    if 17 in allow and not in_fallback and depth > 0:
+        opts += [17]
+    k = rng.choice(opts)
+    rec = lambda d=depth - 1: gen_raw(rng, lab, fut, d, allow, in_fallback)
+    if k == 0:
+        t = lab.text()
+        return T(t.replace("<!--s-1-o-->", "<!--x-->"))
+    if k == 2:
+        return Tu(*[rec() for _ in range(rng.choice([0, 1, 2, 2, 3]))])
+    if k == 8:
+        return V(*[rec() for _ in range(rng.choice([0, 1, 2]))])
+    if k == 9:
+        return O() if rng.random() < 0.3 else O(rec())
+    if k == 15:
+        return W(rng.randrange(8), rec())
+    if k == 16:
+        return SQ(rng.randrange(3), *[rec() for _ in range(rng.choice([0, 1, 2]))])
+    if k == 17:
+        return CL(rec())
+    f = fut[0]
+    fut[0] += 1
+    return S(f, rec())
+
+
+def gen_view(rng, lab, fut, depth, allow, in_fallback=False, in_susp=False, top=True):
+    """allow: set of node kinds; fut: [next free future id, limit]; in_susp: directly among the
+    children of a <Suspense>/<Transition>; top: no boundary encloses this place at all"""
     leafy = depth <= 0
     opts = [0, 0, 1] if leafy else [0, 1, 1, 2, 2, 2]
+    more = fut[0] < fut[1]
+    if leafy:
+        for ck in (22, 23):
+            if ck in allow and rng.random() < 0.3:
+                opts += [ck]
     if not leafy or rng.random() < 0.5:
-        if fut[0] < fut[1]:
+        if more:
             if 3 in allow:
                 opts += [3, 3, 3]
             if 4 in allow and not in_fallback:
@@ -237,14 +357,28 @@ def gen_view(rng, lab, fut, depth, allow, in_fallback=False, in_susp=False):
             opts += [11, 11]
         if 12 in allow and not in_fallback:
             opts += [12]
-        if 13 in allow and in_susp and not in_fallback and fut[0] < fut[1]:
+        if 13 in allow and in_susp and not in_fallback and more:
             opts += [13, 13, 13]
-        if 14 in allow and in_susp and not in_fallback and fut[0] < fut[1]:
+        if 14 in allow and in_susp and not in_fallback and more:
             opts += [14, 14]
-        for ck in (8, 9, 15, 16, 27):
+        for ck in (8, 9, 15, 16, 27, 21, 21, 22, 23, 24):
             if ck in allow:
                 opts += [ck]
+        if not in_fallback:
+            for ck in (17, 17, 18):
+                if ck in allow:
+                    opts += [ck]
+            if more:
+                for ck in (19, 20, 25):
+                    if ck in allow:
+                        opts += [ck]
     k = rng.choice(opts)
+    rec = lambda d=depth - 1, al=allow, fb=in_fallback, su=in_susp, tp=top: gen_view(rng, lab, fut, d, al, fb, su, tp)
+    simple = lambda: gen_view(rng, lab, fut, min(depth - 1, 1), {0, 1, 2} | (allow & FBOK), True, False, False)
+    def newf():
+        f = fut[0]
+        fut[0] += 1
+        return f
     if k == 0:
         if 26 in allow and rng.random() < 0.2:
             rep = rng.randrange(9)
@@ -252,56 +386,77 @@ def gen_view(rng, lab, fut, depth, allow, in_fallback=False, in_susp=False):
         return T(lab.text())
     if k in (8, 16, 27):
         n = rng.choice([0, 1, 2, 2, 3]) if k == 8 else rng.choice([0, 1, 2, 3, 4]) if k == 16 else rng.choice([2, 2, 3, 4])
-        cs = [gen_view(rng, lab, fut, depth - 1, allow, in_fallback, in_susp) for _ in range(n)]
+        cs = [rec() for _ in range(n)]
         return V(*cs) if k == 8 else SQ(rng.randrange(3), *cs) if k == 16 else EN(rng.randrange(4), *cs)
     if k == 9:
-        return O() if rng.random() < 0.3 else O(gen_view(rng, lab, fut, depth - 1, allow, in_fallback, in_susp))
+        return O() if rng.random() < 0.3 else O(rec())
     if k == 15:
-        return W(rng.randrange(8), gen_view(rng, lab, fut, depth - 1, allow, in_fallback, in_susp))
+        return W(rng.randrange(8), rec())
+    if k == 17:
+        return CL(rec())
+    if k == 18:
+        return UN(simple())
+    if k == 19:
+        return RV(newf(), lab.text())
+    if k == 20:
+        f = newf()
+        return AW(f, rng.randrange(2), simple())
+    if k == 21:
+        tag = rng.choice([0, 3, 1, 1, 2, 2])
+        idl = "" if rng.random() < 0.4 else "i%d_" % lab.n
+        if tag in RAW_TAGS:
+            return RE(tag, idl, gen_raw(rng, lab, fut, min(depth - 1, 2), allow, in_fallback))
+        return RE(tag, idl, rec())
+    if k == 22:
+        return VO(rng.randrange(3))
+    if k == 23:
+        lab.n += 1
+        return IH("" if rng.random() < 0.2 else "<i>h%d_</i>" % lab.n)
+    if k == 24:
+        return WA(rec(depth - 1, allow & (SIMPLE | {3, 4, 11, 12, 13, 17, 25})))
+    if k == 25:
+        f = newf()
+        return SA(f, simple())
     if k == 1:
-        return E(rng.randrange(4), gen_view(rng, lab, fut, depth - 1, allow, in_fallback, in_susp))
+        return E(rng.randrange(4), rec())
     if k == 2:
         n = rng.choice([0, 1, 2, 2, 3, 3, 4])
         if 27 in allow and rng.random() < 0.03:
             # the macro-generated tuple impls up to the largest one
             n = rng.choice([5, 6, 7, 8, 12, 16, 25, 26])
-            return Tu(*[gen_view(rng, lab, fut, 0, allow, in_fallback, in_susp) for _ in range(n)])
-        return Tu(*[gen_view(rng, lab, fut, depth - 1, allow, in_fallback, in_susp) for _ in range(n)])
+            return Tu(*[rec(0) for _ in range(n)])
+        return Tu(*[rec() for _ in range(n)])
     if k == 3:
-        f = fut[0]
-        fut[0] += 1
-        return S(f, gen_view(rng, lab, fut, depth - 1, allow, in_fallback, False))
+        f = newf()
+        return S(f, rec(depth - 1, allow, in_fallback, False))
     if k == 13:
-        f = fut[0]
-        fut[0] += 1
-        return RES(f, gen_view(rng, lab, fut, min(depth - 1, 1), {0, 1, 2} | (allow & CONT), True))
+        f = newf()
+        return RES(f, simple())
     if k == 14:
-        f = fut[0]
-        fut[0] += 1
+        f = newf()
         pre, post = rng.choice([(1, 0), (0, 1), (0, 1), (1, 1), (0, 0)])
-        return LS(f, pre, post, gen_view(rng, lab, fut, min(depth - 1, 1), {0, 1, 2} | (allow & CONT), True))
+        return LS(f, pre, post, simple())
     if k == 4:
-        f = fut[0]
-        fut[0] += 1
+        f = newf()
         some = 0 if rng.random() < 0.15 else 1
         # a boundary that yields None keeps its fallback: that fallback has no asynchronous parts
         fb = gen_view(rng, lab, fut, min(depth - 1, 1),
-                      (allow & ({0, 1, 2, 3} | CONT)) if some else ({0, 1, 2} | (allow & CONT)), True)
-        return B(f, fb, gen_view(rng, lab, fut, depth - 1, allow), some)
+                      (allow & ({0, 1, 2, 3} | FBOK)) if some else ({0, 1, 2} | (allow & FBOK)), True, False, False)
+        return B(f, fb, gen_view(rng, lab, fut, depth - 1, allow, False, False, False), some)
     if k == 5:
-        return A(gen_view(rng, lab, fut, depth - 1, allow))
+        return A(gen_view(rng, lab, fut, depth - 1, allow, False, False, top))
     if k == 6:
         lab.n += 1
         return RS("<i>r%d_</i>" % lab.n)
     if k == 7:
-        f = fut[0]
-        fut[0] += 1
-        return RA(f, gen_view(rng, lab, fut, depth - 1, allow))
+        f = newf()
+        return RA(f, gen_view(rng, lab, fut, depth - 1, allow, False, False, top))
     if k == 10:
-        return EB(gen_view(rng, lab, fut, depth - 1, allow, False, in_susp))
+        return EB(rec(depth - 1, allow, False, in_susp))
     if k in (11, 12):
-        fb = gen_view(rng, lab, fut, min(depth - 1, 1), {0, 1, 2} | (allow & CONT), True)
-        return [k, fb, gen_view(rng, lab, fut, depth - 1, allow, False, True)]
+        flag = rng.random() < 0.25
+        fb = Tu() if (flag and k == 11) else simple()
+        return [k, fb, gen_view(rng, lab, fut, depth - 1, allow, False, True, False)] + ([1] if flag else [])
 
 
 def templates():
@@ -384,6 +539,43 @@ def templates():
     t.append(("tuple-25", d(Tu(*big[:25]))))
     t.append(("tuple-16", Tu(*big[:16])))
     t.append(("tuple-12", Tu(*big[3:15])))
+    # closures (called again for dry_resolve / resolve / render), Unsuspend, resources as views, <Await>
+    t.append(("cl-bare", d(Tu(T("l"), CL(S(1, p(T("x")))), T("r")))))
+    t.append(("cl-bare2", d(Tu(CL(S(1, T("m"))), CL(Tu(T("n"), CL(S(2, T("o"))))), T("r")))))
+    t.append(("cl-susp", d(Tu(p(T("h")), SU(E(2, T("L1")), CL(S(1, E(3, T("C1"))))), E(2, T("t"))))))
+    t.append(("cl-susp2", d(SU(E(2, T("L1")), Tu(CL(S(1, E(3, T("C1")))), p(T("m")), CL(V(CL(S(2, E(3, T("C2")))))))))))
+    t.append(("cl-trans", d(TR(E(2, T("L1")), CL(O(S(1, E(3, T("C1")))))))))
+    t.append(("cl-res", d(SU(p(T("L1")), CL(Tu(RES(1, p(T("C1"))), S(2, p(T("C2")))))))))
+    t.append(("cl-eb", d(Tu(p(T("h")), EB(CL(SU(E(2, T("L1")), CL(S(1, E(3, T("C1"))))))), E(2, T("t"))))))
+    t.append(("unsuspend", d(SU(p(T("L1")), Tu(UN(p(T("U1"))), S(1, p(T("C1"))), UN(T("U2")))))))
+    t.append(("unsuspend-bare", d(Tu(T("l"), UN(Tu(T("u"), p(T("v")))), S(1, T("m")), T("r")))))
+    t.append(("resview-bare", d(Tu(T("l"), RV(1, "x"), T("r"), RV(2, "y")))))
+    t.append(("resview-susp", d(Tu(p(T("h")), SU(E(2, T("L1")), Tu(RV(1, "x"), p(T("m")), RV(2, "y"))), E(2, T("t"))))))
+    t.append(("resview-trans", d(TR(E(2, T("L1")), Tu(E(3, RV(1, "x")), S(2, p(T("C2"))))))))
+    for bl in (0, 1):
+        t.append(("await-%d" % bl, d(Tu(p(T("h")), AW(1, bl, E(3, T("C1"))), E(2, T("t"))))))
+    t.append(("await-text", d(Tu(T("a"), AW(1, 0, T("C1")), T("c")))))
+    t.append(("await-sib", d(Tu(AW(1, 0, p(T("C1"))), AW(2, 1, p(T("C2"))), SU(p(T("L3")), S(3, p(T("C3"))))))))
+    t.append(("await-in-susp", d(SU(p(T("L1")), Tu(S(1, p(T("C1"))), AW(2, 0, E(3, T("C2"))))))))
+    t.append(("susp-nofallback", d(Tu(p(T("h")), [11, Tu(), S(1, E(3, T("C1"))), 1], E(2, T("t"))))))
+    t.append(("susp-nofallback-text", d(Tu(T("a"), [11, Tu(), S(1, T("C1")), 1], T("c")))))
+    t.append(("trans-setpending", d(Tu(p(T("h")), [12, E(2, T("L1")), Tu(S(1, E(3, T("C1"))), RES(2, p(T("C2")))), 1], E(2, T("t"))))))
+    # elements: attributes, void elements, inner_html, <textarea>/<style>, spread attributes
+    t.append(("el-attr", RE(0, "i1", Tu(T("l"), S(1, RE(3, "i2", T("m"))), VO(0), T("r")))))
+    t.append(("el-void", d(Tu(T("l"), VO(0), S(1, Tu(VO(1), T("m"))), VO(2), T("r")))))
+    t.append(("el-inner", d(Tu(T("l"), IH("<i>h1_</i>"), S(1, IH("")), T("r")))))
+    for tag in RAW_TAGS:
+        nm = RTAGS[tag]
+        t.append((nm, d(Tu(p(T("h")), RE(tag, "", Tu(T("a<b"), S(1, T("m&n")), T("c>"))), E(2, T("t"))))))
+        t.append((nm + "-unit", d(RE(tag, "i1", Tu(Tu(), V(T("v")), O(), S(1, Tu(T("m"), V())), W(0, S(2, T("n"))))))))
+        t.append((nm + "-susp", d(SU(p(T("L1")), Tu(RE(tag, "", Tu(T("a<"), S(1, T("m&")))), S(2, p(T("C2"))))))))
+        t.append((nm + "-nest", d(RE(tag, "", S(1, Tu(T("o<"), S(2, T("i&")), T("z")))))))
+        t.append((nm + "-bound", d(B(1, RE(tag, "", T("L<1")), RE(tag, "", Tu(T("C&1"), S(2, T("i"))))))))
+    t.append(("attr-spread", WA(Tu(T("a"), p(T("b")), S(1, Tu(E(2, T("x")), VO(0), T("y"))), SA(2, T("z")), V(E(3, T("w")))))))
+    t.append(("attr-spread-nest", d(WA(S(1, WA(Tu(p(T("o")), S(2, E(2, T("i"))), CL(E(3, T("z"))))))))))
+    t.append(("attr-suspend", d(Tu(T("l"), SA(1, Tu(T("m"), p(T("n")))), T("r")))))
+    t.append(("attr-bound", d(WA(B(1, Tu(p(T("L1")), VO(0)), Tu(E(2, T("C1")), S(2, E(3, T("i")))))))))
+    t.append(("attr-susp", d(SU(p(T("L1")), WA(Tu(S(1, p(T("C1"))), E(2, T("m"))))))))
     t.append(("F-C07", Tu(a, S(1, b), c)))
     t.append(("F-C07-before", Tu(S(1, a), b)))
     return t
@@ -474,8 +666,6 @@ def rand_schedule(rng, futs):
     return s
 
 
-# containers / wrappers / text representations of tachys (modelled by desugaring, see StreamRun.view_of)
-CONT = {8, 9, 15, 16, 26, 27}
 FAMILIES = [
     ("real", {0, 1, 2, 3}),
     ("boundary", {0, 1, 2, 3, 4}),
@@ -484,6 +674,10 @@ FAMILIES = [
     ("cont", {0, 1, 2, 3} | CONT),
     ("cont-boundary", {0, 1, 2, 3, 4, 5} | CONT),
     ("cont-leptos", {0, 1, 2, 3, 10, 11, 12, 13, 14} | CONT),
+    ("closures-leptos", {0, 1, 2, 3, 10, 11, 12, 13, 14, 17, 18, 19, 20} | CONT),
+    ("elems", {0, 1, 2, 3, 21, 22, 23, 24, 25} | CONT),
+    ("elems-boundary", {0, 1, 2, 3, 4, 5, 21, 22, 23, 24, 25} | CONT),
+    ("all-leptos", {0, 1, 2, 3, 10, 11, 12, 13, 14, 17, 18, 19, 20, 21, 22, 23, 24, 25} | CONT),
 ]
 
 
@@ -491,7 +685,7 @@ def comparable(tree):
     """is the view in the Coq model (directly or by the desugaring of StreamRun.view_of)?
     The real leptos components are not modelled: oracle only.  An empty [T;0] / StaticVec /
     Fragment renders nothing at all, which no modelled view does: oracle only."""
-    if kinds_in(tree) & LEPTOS_KINDS:
+    if kinds_in(tree) & UNMODELLED:
         return False
     return not has_empty_seq(tree)
 
@@ -502,31 +696,60 @@ def has_empty_seq(v):
     return any(has_empty_seq(c) for c in children(v))
 
 
-def item(ooo, drive, tree, init, sched, kind, op=0):
-    return dict(case=C.norm([op, ooo, drive, tree, init, sched]), kind=kind, compare=comparable(tree))
+def item(mode, drive, tree, init, sched, kind, op=0):
+    """mode: bit 0 out-of-order, bit 1 the `_branching` entry point, bit 2 a nonce is provided;
+    drive 2 (new waker for every poll), branching and nonces are not in the model: oracle only"""
+    return dict(case=C.norm([op, mode, drive, tree, init, sched]), kind=kind,
+                compare=comparable(tree) and mode < 2 and drive != 2)
 
 
-def res_placement_ok(v, in_susp=False):
+def res_placement_ok(v, in_susp=False, top=True):
     """a synchronous resource read is only streamed correctly under a <Suspense>/<Transition>
-    (and not inside the content of a Suspend, which nobody re-resolves)"""
+    (and not inside the content of a Suspend, which nobody re-resolves); a Suspend that reads a
+    LocalResource: under a boundary, or where no boundary encloses it at all"""
     k = v[0]
-    if k in (13, 14):
+    if k == 13:
+        return in_susp
+    if k == 14:
+        # (outside every <Suspense> reading a LocalResource is a usage error: leptos_server panics
+        # "Reading from a LocalResource outside Suspense in `ssr` mode" unless the Suspend happens
+        # to be still pending at its first poll)
         return in_susp
     if k in (11, 12):
-        return res_placement_ok(v[1], False) and res_placement_ok(v[2], True)
-    if k in (3, 7):
-        return res_placement_ok(v[2], False)
-    return all(res_placement_ok(c, in_susp) for c in children(v))
+        return res_placement_ok(v[1], False, False) and res_placement_ok(v[2], True, False)
+    if k == 20:
+        return res_placement_ok(v[3], True, False)
+    if k in (3, 7, 25):
+        return res_placement_ok(v[2], False, top)
+    return all(res_placement_ok(c, in_susp, top) for c in children(v))
+
+
+SIMPLE = {0, 1, 2, 8, 9, 15, 16, 26, 27, 21, 22, 23, 24}     # views without futures or components
+RAW_CHILD = {0, 26, 2, 3, 8, 9, 15, 16, 17}                  # what may stand in a <textarea>/<style>
+
+
+def raw_children_ok(v, in_raw=False, in_style=False):
+    k = v[0]
+    if in_raw and k not in RAW_CHILD:
+        return False
+    if in_style and k in (0, 26) and b"<!--s-" in bytes(v[2] if k == 26 else v[1]):
+        return False
+    if k == 21:
+        t = v[1] % 4
+        return raw_children_ok(v[3], in_raw or t in RAW_TAGS, in_style or t == 2)
+    return all(raw_children_ok(c, in_raw, in_style) for c in children(v))
 
 
 def valid_case(it):
     """generator preconditions (the shrinker keeps only candidates satisfying them)"""
     try:
         case = it["case"]
-        if len(case) != 6 or case[0] not in (0, 1) or case[1] not in (0, 1) or case[2] not in (0, 1):
+        if len(case) != 6 or case[0] not in (0, 1) or case[1] not in range(8) or case[2] not in (0, 1, 2):
             return False
+        if case[1] & 4 and not case[1] & 1:
+            return False      # a nonce only matters for the scripts of an out-of-order stream
         tree = case[3]
-        if not wf_view(tree, False) or not res_placement_ok(tree):
+        if not wf_view(tree, False) or not res_placement_ok(tree) or not raw_children_ok(tree):
             return False
         futs = futures_of(tree)
         if len(futs) != len(set(futs)) or len(futs) > 6:
@@ -547,7 +770,7 @@ def valid_case(it):
         for e in case[5]:
             if not (e == [1] or (len(e) == 2 and e[0] == 0 and e[1] in futs)):
                 return False
-        return bool(it.get("compare", True)) == comparable(tree)
+        return bool(it.get("compare", True)) == (comparable(tree) and case[1] < 2 and case[2] != 2)
     except Exception:
         return False
 
@@ -582,8 +805,29 @@ def wf_view(v, in_fallback):
         return 4 <= len(v) <= 6 and v[1] in range(4) and all(wf_view(c, in_fallback) for c in v[2:])
     if k == 3:
         return len(v) == 3 and isinstance(v[1], int) and v[1] > 0 and wf_view(v[2], in_fallback)
+    if k == 21:
+        return len(v) == 4 and v[1] in range(4) and _bytes(v[2]) \
+            and re.fullmatch(rb"[a-z0-9_]*", bytes(v[2])) is not None and wf_view(v[3], in_fallback)
+    if k == 22:
+        return len(v) == 2 and v[1] in range(3)
+    if k == 23:
+        return len(v) == 2 and _bytes(v[1]) and re.fullmatch(rb"(<i>[a-z0-9_]*</i>)?", bytes(v[1])) is not None
+    if k == 24:
+        return len(v) == 2 and wf_view(v[1], in_fallback) and not (kinds_in(v[1]) - (SIMPLE | {3, 4, 11, 12, 13, 17, 25}))
     if in_fallback:
         return False
+    if k == 17:
+        return len(v) == 2 and wf_view(v[1], False)
+    if k == 18:
+        return len(v) == 2 and wf_view(v[1], True) and not (kinds_in(v[1]) - SIMPLE)
+    if k == 19:
+        return len(v) == 3 and isinstance(v[1], int) and v[1] > 0 and _bytes(v[2])
+    if k == 20:
+        return len(v) == 4 and isinstance(v[1], int) and v[1] > 0 and v[2] in (0, 1) \
+            and wf_view(v[3], True) and not (kinds_in(v[3]) - SIMPLE)
+    if k == 25:
+        return len(v) == 3 and isinstance(v[1], int) and v[1] > 0 and wf_view(v[2], True) \
+            and not (kinds_in(v[2]) - SIMPLE)
     if k == 4:
         return len(v) == 5 and isinstance(v[1], int) and v[1] > 0 and v[4] in (0, 1) \
             and wf_view(v[2], True) and wf_view(v[3], False) and (v[4] == 1 or not futures_of(v[2]))
@@ -592,7 +836,13 @@ def wf_view(v, in_fallback):
     if k == 7:
         return len(v) == 3 and isinstance(v[1], int) and v[1] > 0 and wf_view(v[2], False)
     if k in (11, 12):
-        return len(v) == 3 and wf_view(v[1], True) and not futures_of(v[1]) and wf_view(v[2], False)
+        if len(v) == 4:
+            # <Suspense> without a fallback prop (fallback must be ()) / <Transition set_pending>
+            if v[3] not in (0, 1) or (k == 11 and v[3] and v[1] != [2]):
+                return False
+        elif len(v) != 3:
+            return False
+        return wf_view(v[1], True) and not futures_of(v[1]) and wf_view(v[2], False)
     if k == 13:
         return len(v) == 3 and isinstance(v[1], int) and v[1] > 0 and wf_view(v[2], True) \
             and not futures_of(v[2])
@@ -614,47 +864,68 @@ def _utf8(b):
         return False
 
 
+def mode_name(mode):
+    return ("ooo" if mode & 1 else "io") + ("-br" if mode & 2 else "") + ("-nonce" if mode & 4 else "")
+
+
+NONCE_KINDS = {4, 11, 12, 20}        # boundaries whose replacement script gets the nonce
+
+
 def generate(rng, tier):
     quick = tier == "quick"
     # 1. templates x schedules
     for name, tree in templates():
         futs = futures_of(tree)
         lim = (16 if len(futs) <= 2 else 10) if quick else (None if len(futs) <= 3 else 1500)
+        ks = kinds_in(tree)
         for ooo in (0, 1):
             scheds = schedules(futs, rng, lim)
             for s in scheds:
                 yield item(ooo, 0, tree, [], s, "tpl-" + ("ooo" if ooo else "io"))
             for perm in itertools.permutations(futs):
                 yield item(ooo, 1, tree, [], [Cm(f) for f in perm], "tpl-exec-" + ("ooo" if ooo else "io"))
+                # the same completions, every poll with a new waker (only the newest is live)
+                yield item(ooo, 2, tree, [], [Cm(f) for f in perm], "tpl-fresh-" + ("ooo" if ooo else "io"))
             for k in range(len(futs)):
                 for init in itertools.combinations(futs, k + 1):
                     rest = [f for f in futs if f not in init]
                     yield item(ooo, rng.choice([0, 1]), tree, list(init), rand_schedule(rng, rest),
                                "tpl-init-" + ("ooo" if ooo else "io"))
-            if kinds_in(tree) & LEPTOS_KINDS:
+            if ks & LEPTOS_KINDS:
                 # executor turns controlled by the schedule
                 for s in tick_schedules(tree, rng, 60 if quick else None):
                     yield item(ooo, 0, tree, [], s, "tpl-ticks-" + ("ooo" if ooo else "io"), op=1)
+            # the `_branching` entry points, and a nonce for the replacement scripts
+            modes = [ooo | 2] + ([ooo | 4, ooo | 6] if ooo and (ks & NONCE_KINDS) else [])
+            for mode in modes:
+                for s in schedules(futs, rng, 3 if quick else 40):
+                    yield item(mode, 0, tree, [], s, "tpl-" + mode_name(mode))
+                perms = list(itertools.permutations(futs))
+                for perm in perms if not quick else rng.sample(perms, min(2, len(perms))):
+                    yield item(mode, rng.choice([1, 2]), tree, [], [Cm(f) for f in perm], "tpl-exec-" + mode_name(mode))
     # 2. random trees
-    n = 9000 if quick else 160000
+    n = 12000 if quick else 200000
     for i in range(n):
-        fam, allow = FAMILIES[rng.choice([0, 0, 0, 1, 1, 2, 3, 3, 4, 4, 5, 6])]
+        fam, allow = FAMILIES[rng.choice([0, 0, 0, 0, 1, 1, 1, 2, 2, 3, 3, 4, 4, 4, 5, 5, 6, 7, 7, 8, 8, 9, 10, 10])]
         lab = Lab(rng)
         fut = [1, 1 + rng.choice([1, 2, 2, 3, 3, 4, 4])]
         tree = gen_view(rng, lab, fut, rng.choice([2, 3, 3, 4]), allow)
         futs = futures_of(tree)
-        ooo = rng.choice([0, 1])
+        ks = kinds_in(tree)
+        mode = rng.choice([0, 1])
+        if rng.random() < 0.12:
+            mode |= 2
+        if mode & 1 and (ks & NONCE_KINDS) and rng.random() < 0.15:
+            mode |= 4
         init = [f for f in futs if rng.random() < 0.12]
         rest = [f for f in futs if f not in init]
         reps = 1 if not futs else rng.choice([1, 2, 3])
         for _ in range(reps):
-            drive = rng.choice([0, 0, 1])
-            yield item(ooo, drive, tree, init, rand_schedule(rng, rest),
-                       "rnd-%s-%s" % (fam, "ooo" if ooo else "io"))
-        if fam.endswith("leptos") and (kinds_in(tree) & LEPTOS_KINDS):
+            drive = rng.choice([0, 0, 0, 0, 1, 1, 2])
+            yield item(mode, drive, tree, init, rand_schedule(rng, rest), "rnd-%s-%s" % (fam, mode_name(mode)))
+        if fam.endswith("leptos") and (ks & LEPTOS_KINDS):
             for _ in range(reps):
-                yield item(ooo, 0, tree, [], rand_tick_schedule(rng, tree),
-                           "rnd-ticks-%s" % ("ooo" if ooo else "io"), op=1)
+                yield item(mode, 0, tree, [], rand_tick_schedule(rng, tree), "rnd-ticks-%s" % mode_name(mode), op=1)
 
 
 # ------------------------------------------------------------------ oracle
@@ -663,14 +934,19 @@ def dec(b):
 
 
 def unpack(case):
-    return case[1], case[2], case[3], case[4], [tuple(e) if len(e) > 1 else (1,) for e in case[5]]
+    """(out-of-order?, drive, view as the oracle reads it, init, schedule)"""
+    return case[1] & 1, case[2], norm_tree(case[3]), case[4], [tuple(e) if len(e) > 1 else (1,) for e in case[5]]
+
+
+def branching(case): return bool(case[1] & 2)
+def with_nonce(case): return bool(case[1] & 4)
 
 
 def completion_order(case):
     """the future completed by each (3 w) entry of the log, in log order"""
     ooo, drive, tree, init, sched = unpack(case)
     futs = futures_of(tree)
-    if drive == 0:
+    if drive == 0:          # (drive 2 = executor with a new waker for every poll: same order as 1)
         order = [e[1] for e in sched if e[0] == 0]
         done = set(init) | set(order)
         return order + sorted(f for f in set(futs) if f not in done)
@@ -693,69 +969,96 @@ def text_of_node(v):
     return dec(t) if isinstance(t, list) else t
 
 
-def py_render(v, flag, dropped=frozenset()):
+def py_render(v, flag, dropped=frozenset(), attrs="", esc=True):
     """the document of the fully awaited view, written from the RenderHtml impls of
-    &str / HtmlElement / tuples / () / Suspend / Either — independent of the Coq model.
-    flag = position is NextChildAfterText.  Returns (html, flag).
-    `dropped`: Suspend futures rendered as nothing (used only to recognise finding F-C07-f)."""
+    &str / HtmlElement / tuples / () / Vec / Option / Suspend / Either … — independent of the Coq
+    model.  flag = position is NextChildAfterText.  Returns (html, flag).
+    `dropped`: Suspend futures rendered as nothing (used only to recognise findings F-C07-f/g).
+    `attrs`: extra attributes on their way to the next elements (add_any_attr).
+    `esc`: false inside <textarea>/<style> (no <!> markers, text written as it is)."""
     k = v[0]
+    R = lambda c, fl, at=attrs, e=esc: py_render(c, fl, dropped, at, e)
+    def seq(cs, fl):
+        out = []
+        for c in cs:
+            h, fl = R(c, fl)
+            out.append(h)
+        return "".join(out), fl
+    unit = ("<!>", False) if esc else ("", flag)
     if k in (0, 26):
         s = text_of_node(v)
+        if not esc:
+            return s, True
         return ("<!>" if flag else "") + (" " if s == "" else html_escape(s)), True
     if k in (1, 27):
         if k == 1:
-            inner, _ = py_render(v[2], False, dropped)
+            inner = R(v[2], False, "", True)[0]
         else:
             inner, fl = [], False
             for c in v[2:]:
-                h, fl = py_render(c, fl, dropped)
+                h, fl = R(c, fl, "", True)
                 inner.append(h)
             inner = "".join(inner)
         t = TAGS[v[1] % 4]
-        return "<%s>%s</%s>" % (t, inner, t), False
+        return "<%s%s>%s</%s>" % (t, attrs, inner, t), False
+    if k == 21:
+        t = RTAGS[v[1] % 4]
+        own = ' id="%s"' % text_of_label(v[2]) if v[2] else ""
+        if v[1] % 4 in RAW_TAGS:
+            inner = R(v[3], False, "", False)[0]
+            if v[1] % 4 == 1:
+                inner = html_escape(inner)       # a <textarea>'s content is escaped as a whole
+        else:
+            inner = R(v[3], False, "", True)[0]
+        return "<%s%s%s>%s</%s>" % (t, own, attrs, inner, t), False
+    if k == 22:
+        return "<%s%s>" % (VOIDS[v[1] % 3], attrs), False
+    if k == 23:
+        return "<div%s>%s</div>" % (attrs, text_of_label(v[1])), False
+    if k == 24:
+        return R(v[1], flag, attrs + ' %s="v"' % (v[2] if len(v) > 2 else "data-k"))
     if k in (8, 16):
         # Vec: the children, then a <!> end marker; arrays / StaticVec / Fragment: just the children
-        out = []
-        for c in children(v):
-            h, flag = py_render(c, flag, dropped)
-            out.append(h)
-        if k == 8:
-            return "".join(out) + "<!>", False
-        return "".join(out), flag
+        h, fl = seq(children(v), flag)
+        if k == 8 and esc:
+            return h + "<!>", False
+        return h, fl
     if k == 9:
         # Option: Some(v) is v, None is ()
-        return py_render(v[1], flag, dropped) if len(v) > 1 else ("<!>", False)
+        return R(v[1], flag) if len(v) > 1 else unit
     if k == 15:
-        return py_render(v[2], flag, dropped)
+        return R(v[2], flag)
+    if k in (17, 18):
+        return R(v[1], flag)
     if k == 2:
         if len(v) == 1:
-            return "<!>", False
-        out = []
-        for c in v[1:]:
-            h, flag = py_render(c, flag, dropped)
-            out.append(h)
-        return "".join(out), flag
+            return unit
+        return seq(v[1:], flag)
     if k == 3:
         if v[1] in dropped:
             return "", flag
-        return py_render(v[2], flag, dropped)
+        return R(v[2], flag)
     if k == 4:
-        return py_render(v[3] if v[4] else v[2], flag, dropped)
+        return R(v[3] if v[4] else v[2], flag)
     if k in (5, 7, 10):
         # ErrorBoundary renders its children on a copy of the position (sync and streaming alike);
         # the raw push_async node is defined the same way
-        inner, _ = py_render(v[2] if k == 7 else v[1], flag, dropped)
+        inner, _ = R(v[2] if k == 7 else v[1], flag)
         return inner, flag
     if k == 6:
         return text_of_node(v), flag
     if k in (11, 12):
         # a boundary that reads a LocalResource can never resolve on the server: it keeps its fallback
-        return py_render(v[1] if reads_local(v[2]) else v[2], flag, dropped)
+        return R(v[1] if reads_local(v[2]) else v[2], flag)
     if k == 13:
-        return py_render(v[2], flag, dropped)      # closure -> Option::Some(view): transparent
+        return R(v[2], flag)      # closure -> Option::Some(view): transparent
     if k == 14:
-        return py_render(v[4], flag, dropped)      # only reached without a local read
+        return R(v[4], flag)      # only reached without a local read
     raise ValueError(v)
+
+
+def text_of_label(b):
+    return dec(b) if isinstance(b, list) else b
 
 
 def reads_local(v):
@@ -781,29 +1084,32 @@ def awaited(v):
     return [f for c in children(v) for f in awaited(c)]
 
 
-def label_scopes(v, chain, out):
+def label_scopes(v, chain, out, raw=False):
     """for every non-empty Text label: the asynchronous scopes enclosing it —
-    ('content', [futures that must all be complete]) / ('fallback', [futures; gone only when all complete])"""
+    ('content', [futures that must all be complete]) / ('fallback', [futures; gone only when all complete]).
+    raw: inside a <style> (text is written as it is)"""
     k = v[0]
     if k in (0, 26):
         s = text_of_node(v)
         if s:
-            out.append((html_escape(s), list(chain)))
+            out.append((s if raw else html_escape(s), list(chain)))
     elif k in (3, 7, 13):
-        label_scopes(v[2], chain + [("content", [v[1]])], out)
+        label_scopes(v[2], chain + [("content", [v[1]])], out, raw)
     elif k == 14:
-        label_scopes(v[4], chain + [("content", [v[1]] + ([NEVER] if v[2] or v[3] else []))], out)
+        label_scopes(v[4], chain + [("content", [v[1]] + ([NEVER] if v[2] or v[3] else []))], out, raw)
     elif k == 4:
-        label_scopes(v[2], chain + [("fallback", [v[1]])], out)
+        label_scopes(v[2], chain + [("fallback", [v[1]])], out, raw)
         if v[4]:
-            label_scopes(v[3], chain + [("content", [v[1]])], out)
+            label_scopes(v[3], chain + [("content", [v[1]])], out, raw)
     elif k in (11, 12):
         aw = awaited(v[2])      # contains NEVER if a LocalResource is read: the children never show
-        label_scopes(v[1], chain + [("fallback", aw)], out)
-        label_scopes(v[2], chain + [("content", aw)], out)
+        label_scopes(v[1], chain + [("fallback", aw)], out, raw)
+        label_scopes(v[2], chain + [("content", aw)], out, raw)
+    elif k == 21:
+        label_scopes(v[3], chain, out, v[1] % 4 == 2)
     else:
         for c in children(v):
-            label_scopes(c, chain, out)
+            label_scopes(c, chain, out, raw)
 
 
 def check_timeline(case, events):
@@ -861,6 +1167,7 @@ def oracle(item, impl):
     if isinstance(impl, str):
         return "harness error / panic: " + impl[:200]
     ooo, drive, tree, init, sched = unpack(case)
+    raw_kinds = kinds_in(case[3])
     ref, ref2, events = impl
     if ooo and 7 in kinds_in(tree):
         return None            # push_async in an out-of-order stream: not a call pattern of any view
@@ -898,7 +1205,7 @@ def oracle(item, impl):
         return "stream yielded again after returning None"
     # ---- wake-ups (literal drive; with opcode 1 the executor turns are explicit and the drain
     # phase alternates turns and polls, so only termination is checked there)
-    if drive == 0 and case[0] == 0:
+    if drive not in (1, 2) and case[0] == 0:
         futs = set(futures_of(tree))
         order = completion_order(case)
         done = set(init)
@@ -921,7 +1228,7 @@ def oracle(item, impl):
                 pending_at = None
                 if e[0] == 0:
                     inc = futs - done
-                    if not inc and not (kinds_in(tree) & LEPTOS_KINDS):
+                    if not inc and not (raw_kinds & LEPTOS_KINDS):
                         return "stream returned Pending although every future is complete"
                     pending_at = [inc, 0]
     # ---- the document
@@ -929,6 +1236,13 @@ def oracle(item, impl):
     if err:
         return err
     got = H.visible(doc.body)
+    if branching(case):
+        # the `_branching` entry points add <!--bo-ID-->/<!--bc-ID--> comments around every branch:
+        # properly nested, and without them the document is the resolved render
+        err = H.branch_error(got)
+        if err:
+            return "branching stream: " + err
+        got = H.strip_branch(got)
     if got != exp:
         return "%s document differs from the resolved render: got %r want %r" % (
             "out-of-order (after its scripts)" if ooo else "in-order", render_tree(got), want)
@@ -936,7 +1250,32 @@ def oracle(item, impl):
         ids = [s for s, _ in doc.scripts_run]
         if len(ids) != len(set(ids)):
             return "a replacement chunk was emitted twice (ids %r)" % ids
+    if with_nonce(case):
+        # under a Content-Security-Policy a replacement script only runs with the response's nonce
+        nonce = [dec(e[1]) for e in events if e[0] == 12]
+        if len(nonce) != 1:
+            return "harness did not log the nonce"
+        must = not bare_chunks(tree)
+        for (sid, _), attrs in zip(doc.scripts_run, doc.script_attrs):
+            if "nonce" in attrs and attrs["nonce"] != nonce[0]:
+                return "replacement script of chunk %s carries nonce %r, the response's nonce is %r" % (
+                    sid, attrs["nonce"], nonce[0])
+            if must and "nonce" not in attrs:
+                return "replacement script of chunk %s has no nonce although one was provided (%r)" % (sid, nonce[0])
     return None
+
+
+def bare_chunks(v, in_susp=False):
+    """is there a Suspend that is a chunk of its own (outside every <Suspense>)?  Its replacement
+    script has no nonce (upstream TODO in tachys/src/reactive_graph/suspense.rs)"""
+    k = v[0]
+    if k in (3, 14) and not in_susp:
+        return True
+    if k in (11, 12):
+        return bare_chunks(v[1], False) or bare_chunks(v[2], True)
+    if k in (3, 7):
+        return bare_chunks(v[2], False)
+    return any(bare_chunks(c, in_susp) for c in children(v))
 
 
 def render_tree(t):
@@ -947,7 +1286,11 @@ def render_tree(t):
         elif n[0] == "comment":
             out.append("<!--%s-->" % n[1] if n[1] else "<!>")
         else:
-            out.append("<%s>%s</%s>" % (n[1], render_tree(n[2]), n[1]))
+            attrs = "".join(' %s="%s"' % kv for kv in (n[3] if len(n) > 3 else ()))
+            if n[1] in H.VOID:
+                out.append("<%s%s>" % (n[1], attrs))
+            else:
+                out.append("<%s%s>%s</%s>" % (n[1], attrs, render_tree(n[2]), n[1]))
     return "".join(out)
 
 
@@ -963,11 +1306,14 @@ def pos_free(ooo, v, flag, init, strict, in_suspense=False, dropped=frozenset())
     StreamProofs.pf for the modelled kinds)"""
     k = v[0]
     rec = lambda c, fl, st, ins=in_suspense: pos_free(ooo, c, fl, init, st, ins, dropped)
-    if k in (0, 6, 26):
+    if k in (0, 6, 26, 22, 23):
         return True
     if k == 1:
         return rec(v[2], False, strict)
-    if k in (9, 15):
+    if k == 21:
+        # inside <textarea>/<style> nothing depends on the position (no <!> markers)
+        return v[1] % 4 in RAW_TAGS or rec(v[3], False, strict)
+    if k in (9, 15, 17, 18, 24):
         return all(rec(c, flag, strict) for c in children(v))
     if k in (2, 8, 16, 27):
         if k == 27:
@@ -1031,12 +1377,29 @@ def _classify(item, impl, model):
         return None
     ooo, drive, tree, init, sched = unpack(case)
     msg = oracle(item, impl)
-    if not msg or "document differs" not in msg:
+    if not msg:
         return None
     ref, ref2, events = impl
+    # F-C07-g: out-of-order stream, a pending Suspend that is a chunk of its own inside a
+    # <textarea>/<style>: the placeholder comments cannot exist there
+    rawp = raw_text_chunks(tree)
+    if ooo and rawp and "every future complete before rendering" not in msg:
+        if "replacement script fails" in msg and "marker comment not found" in msg:
+            return "F-C07-g"
+        if "document differs" in msg:
+            doc, err = check_timeline(case, events)
+            if not err:
+                got = H.visible(doc.body)
+                if branching(case):
+                    got = H.strip_branch(got)
+                want = tree_of(py_render(tree, False)[0])
+                if H.strip_markers(blank_raw(got)) == H.strip_markers(blank_raw(want)):
+                    return "F-C07-g"
+    if "document differs" not in msg:
+        return None
     if "every future complete before rendering" in msg:
         # only the leptos components are pending although every future is complete
-        if not (kinds_in(tree) & LEPTOS_KINDS):
+        if not (kinds_in(case[3]) & LEPTOS_KINDS):
             return None
         got = tree_of(dec(ref))
         init = futures_of(tree)
@@ -1046,6 +1409,8 @@ def _classify(item, impl, model):
         if err:
             return None
         got = H.visible(doc.body)
+        if branching(case):
+            got = H.strip_branch(got)
     # F-C07-f: exactly the content of some un-awaited nested Suspends is missing;
     # F-C07-a: a pending asynchronous node handed back a stale position, and the documents differ
     # only in <!> separators next to text.  (Both can occur in one case.)
@@ -1060,6 +1425,33 @@ def _classify(item, impl, model):
             if stale and H.strip_markers(got) == H.strip_markers(want):
                 return "F-C07-f" if r > 0 else "F-C07-a"
     return None
+
+
+def raw_text_chunks(v, in_susp=False, in_raw=False, out=None):
+    """futures of the Suspends that are chunks of their own inside a <textarea>/<style>"""
+    out = [] if out is None else out
+    k = v[0]
+    if k == 3 and in_raw and not in_susp:
+        out.append(v[1])
+    if k in (11, 12):
+        raw_text_chunks(v[1], False, in_raw, out)
+        raw_text_chunks(v[2], True, in_raw, out)
+    elif k == 21:
+        raw_text_chunks(v[3], in_susp, in_raw or v[1] % 4 in RAW_TAGS, out)
+    else:
+        for c in children(v):
+            raw_text_chunks(c, in_susp, in_raw, out)
+    return out
+
+
+def blank_raw(tree):
+    """canonical tree with the content of every <textarea>/<style> removed"""
+    out = []
+    for n in tree:
+        if n[0] == "el":
+            n = ("el", n[1], [] if n[1] in ("textarea", "style") else blank_raw(n[2])) + tuple(n[3:])
+        out.append(n)
+    return out
 
 
 def nontrivial(item, model):
